@@ -6,11 +6,13 @@ use std::sync::{Arc, Mutex};
 use std::time::{Duration, Instant};
 
 use crate::case::Case;
-use crate::engine::{self, Outcome};
+#[cfg(feature = "e1")]
+use crate::engine;
+use crate::outcome::Outcome;
 use crate::hist::Hist;
 use crate::oracle::Violation;
 use crate::rng::{mix, Rng};
-use crate::sched::{SchedKind, SchedSpec};
+use crate::outcome::{SchedKind, SchedSpec};
 
 /// What a property check supplies.
 pub struct PropSpec {
@@ -164,6 +166,7 @@ pub struct RunResult {
     pub wall: Duration,
 }
 
+#[cfg(feature = "e1")]
 /// Per-worker exploration state machine, driven by the engine's batch runner.
 struct Explorer {
     prop: &'static PropSpec,
@@ -195,6 +198,7 @@ struct Explorer {
     known_seen: BTreeMap<(String, String), u64>,
 }
 
+#[cfg(feature = "e1")]
 impl Explorer {
     /// Moves to the next generated case; false when the budget is exhausted.
     fn next_case(&mut self) -> bool {
@@ -241,6 +245,7 @@ pub fn is_single_schedule(case: &Case) -> bool {
     case.cfg.threads <= 1 && case.aux.is_empty() && !case.cfg.timeout_set && case.comp.is_none()
 }
 
+#[cfg(feature = "e1")]
 impl engine::WorkSource for Explorer {
     fn next(&mut self) -> Option<(Arc<Case>, SchedSpec)> {
         loop {
@@ -307,6 +312,7 @@ pub struct PartResult {
     pub found: Vec<Found>,
 }
 
+#[cfg(feature = "e1")]
 /// Explores the case indices `part, part + parts, ...` on the calling thread.
 #[allow(clippy::too_many_arguments)]
 pub fn explore_part(
@@ -369,6 +375,7 @@ pub fn regenerate(prop: &'static PropSpec, seed: u64, thorough: bool, ci: u64, v
     Some((case, spec, case_seed))
 }
 
+#[cfg(feature = "e1")]
 /// Explores the property's budget on `workers` single-threaded worker
 /// processes (process isolation: a defect that loops without reaching a
 /// scheduling point is killed by the watchdog and reported with the case it
